@@ -27,5 +27,9 @@ func run(e *Env) error {
 	if err := s.ZeroCases(e, e.N(6000, 40000)); err != nil {
 		return err
 	}
+	// objects that already hold a value (other preset, longer/shorter, after a failed decode) decode like fresh ones
+	if err := s.RecycledCases(e, e.N(500, 2500), e.N(3000, 20000), 1); err != nil {
+		return err
+	}
 	return s.CodecCases(e, e.N(600, 3000), e.N(3, 6), e.N(4, 8), true)
 }
